@@ -398,6 +398,8 @@ class Impute(EnvironmentFilter):
     def _get_imputation(self,values):
         try:
             values = [v for v in values if v is not None]
+            if self._stat != "mode" and not all(isinstance(v,(int,float)) for v in values):
+                return None #mean and median are only defined for numeric features
             if self._stat == "mean":
                 return sum(values)/len(values)
             if self._stat == "median":
